@@ -328,6 +328,10 @@ class LazyEvaluatedKernelTensor(LinearOperator):
         )
 
     @recall_grad_state
+    def _permute_batch(self, *dims):
+        # The kernel's (batched) parameters cannot be permuted along with x1 and x2: permute the evaluated kernel
+        return self.evaluate_kernel()._permute_batch(*dims)
+
     def _unsqueeze_batch(self, dim):
         x1 = self.x1.unsqueeze(dim)
         x2 = self.x2.unsqueeze(dim)
